@@ -238,6 +238,7 @@ def run(ctx):
         return {"explanation": "anchor missing"}
     paths = A.block_paths(loops[0]["body"])
     n_ret_some = n_ret_none = 0
+    seen_bad_arms = set()
     for p in paths:
         incs = [n for n in A.events_of(p, "assign") if n.get("op") == "+=" and A.text(n["l"]).endswith("delivered_in_segment")]
         seg_incs = [n for n in A.events_of(p, "assign") if n.get("op") == "+=" and A.text(n["l"]).endswith(".segment")]
@@ -264,6 +265,17 @@ def run(ctx):
             else:
                 ctx.violate("C22.3", F, "segment-advance-unguarded", CTRL, seg_incs[0]["line"],
                             "cursor.segment += 1 on a path with %d resets, guards: segment<current=%s, delivered>=sealed=%s" % (len(resets), has_lt, has_ge))
+        # a read that failed is not a read that found nothing: every arm that is not the successful result of
+        # forward_read / forward_read_remote leaves with an error
+        for cn_, br_ in p.conds:
+            if cn_.get("k") == "match" and isinstance(br_, tuple) and br_[0] == "arm" and "forward_read" in A.text(cn_["e"]):
+                pat_ = str(br_[2]).replace(" ", "")
+                good_arm = pat_.startswith("Ok(") or pat_.startswith("InternalResp::ReadResult")
+                if not good_arm and not (p.exit == "err" or (p.exit == "return" and ret_t.startswith("Err("))) and (cn_.get("line"), pat_) not in seen_bad_arms:
+                    seen_bad_arms.add((cn_.get("line"), pat_))
+                    ctx.violate("C22.3", F, "read-failure-treated-as-empty", CTRL, cn_.get("line"),
+                                "the arm `%s` of the read's result goes on as if the read had returned no entry: for a sealed segment `no entry` means fully consumed, so one failed "
+                                "(forwarded) read moves the cursor past every undelivered entry of the segment" % pat_[:50])
         if p.exit == "return" and ret_t == "Ok(None)":
             n_ret_none += 1
             reads = [n for n in A.events_of(p, "mcall") if n["method"] in ("forward_read", "forward_read_remote")]
